@@ -609,6 +609,11 @@ func (g *Gen) loopHeadRefsAxiom(name, ver string) {
 		return
 	}
 	before := g.beforeHere
+	if strings.HasPrefix(kind, "mapval:") {
+		ks := strings.TrimPrefix(kind, "mapval:")
+		g.assumeGlobal(fmt.Sprintf("(forall ((r Int) (k %s)) (! %s :pattern ((select (select %s r) k))))", ks, before(fmt.Sprintf("(select (select %s r) k)", ver)), ver))
+		return
+	}
 	switch kind {
 	case "field":
 		g.assumeGlobal(fmt.Sprintf("(forall ((r Int)) (! %s :pattern ((select %s r))))", before(fmt.Sprintf("(select %s r)", ver)), ver))
@@ -1077,6 +1082,27 @@ func (g *Gen) binop(x *ssa.BinOp) string {
 			r := g.fresh("strcat", "Slice")
 			g.assumeAlways(fmt.Sprintf("(and %s (= (len %s) %s))", g.sliceWF(r, false), r, g.addIdx("(len "+a+")", "(len "+b+")")))
 			return r
+		}
+		// ordering of strings: a strict total order on their content (lexicographic byte order is one; which one is
+		// left open). strlt is uninterpreted over the content identities strkey(.)
+		if x.Op == token.LSS || x.Op == token.GTR || x.Op == token.LEQ || x.Op == token.GEQ {
+			sm := types.NewMap(types.Typ[types.String], types.Typ[types.Bool])
+			ka, kb := g.mapKey(a, sm), g.mapKey(b, sm)
+			if !g.funDecl["strlt"] {
+				g.funDecl["strlt"] = true
+				g.prel = append(g.prel, "(declare-fun strlt (Int Int) Bool)")
+				g.assumeGlobal("(forall ((a Int) (b Int)) (! (and (not (and (strlt a b) (strlt b a))) (=> (not (= a b)) (or (strlt a b) (strlt b a))) (=> (= a b) (not (strlt a b)))) :pattern ((strlt a b))))")
+			}
+			switch x.Op {
+			case token.LSS:
+				return fmt.Sprintf("(strlt %s %s)", ka, kb)
+			case token.GTR:
+				return fmt.Sprintf("(strlt %s %s)", kb, ka)
+			case token.LEQ:
+				return fmt.Sprintf("(not (strlt %s %s))", kb, ka)
+			default:
+				return fmt.Sprintf("(not (strlt %s %s))", ka, kb)
+			}
 		}
 		return g.fresh("strop", g.sortOf(x.Type()))
 	}
@@ -1923,6 +1949,10 @@ func (g *Gen) loopHead(b *ssa.BasicBlock, k int, li *loopInfo) {
 						g.assumeGlobal(fmt.Sprintf("(forall ((i %s)) (! %s :pattern ((select %s i))))", g.idxSort(), g.beforeHere(fmt.Sprintf("(select %s i)", hv)), hv))
 					case "slicemem":
 						g.assumeGlobal(fmt.Sprintf("(forall ((i %s)) (! %s :pattern ((select %s i))))", g.idxSort(), g.beforeHere(fmt.Sprintf("(base (select %s i))", hv)), hv))
+					default:
+						if kind := g.refComps[n]; strings.HasPrefix(kind, "mapval:") {
+							g.assumeGlobal(fmt.Sprintf("(forall ((k %s)) (! %s :pattern ((select %s k))))", strings.TrimPrefix(kind, "mapval:"), g.beforeHere(fmt.Sprintf("(select %s k)", hv)), hv))
+						}
 					}
 				}
 				g.cur[n] = g.define("H_"+n+"@loop", s, h)
